@@ -45,6 +45,18 @@ def nat_of_str(s):
     return int(s) if s != '' and all(c in '0123456789' for c in s) else -1
 
 
+def prefix_fold(f, init, xs, i, *extra):
+    """f(...f(f(init, xs[0]), xs[1])..., xs[i-1]): the state after the first i elements of xs
+    (f is called as f(state, x, *extra)).
+    In proofs this is a ghost history function with its defining equations instantiated at the
+    indices the clauses mention (pyvc.models.m_prefix_fold); f must be a pure module-level function
+    that does not mutate its arguments."""
+    acc = init
+    for j in range(i):
+        acc = f(acc, xs[j], *extra)
+    return acc
+
+
 def items_of(it):
     """the (remaining) items of an iterator or sequence, as a list"""
     return list(it)
@@ -53,3 +65,28 @@ def items_of(it):
 def keys_subset(m1, m2):
     """every key of the dict m1 is a key of m2"""
     return all(k in m2 for k in m1)
+
+
+def recursive(fn):
+    """Marks a boolean spec function that calls itself (natively: plain recursion).  In proofs its value is
+    an uninterpreted predicate of the arguments (scalars, by-id objects, maps, input lists / list attributes);
+    the defining equation is unfolded once for the arguments of every call made outside quantifier bodies."""
+    fn._pv_recursive = True
+    return fn
+
+
+def recursive_str(fn):
+    """like `recursive`, for a spec function whose value is a string"""
+    fn._pv_recursive = 'str'
+    return fn
+
+
+def recursive_int(fn):
+    """like `recursive`, for a spec function whose value is an integer"""
+    fn._pv_recursive = 'int'
+    return fn
+
+
+def forall_keys(d, pred):
+    """pred(k) for every key k of the dict d (in proofs: a universally quantified key of the symbolic map)"""
+    return all(pred(k) for k in list(d))
